@@ -2,7 +2,7 @@
    type tree of Model/GoType.v.  One clause per branch of the Go code; line numbers refer
    to schema_generator.go.  Naming tables (declsByName, unique suffixes) are not part of
    this file: a declared type carries the name its scope gives it (Model/Ident.v has the
-   de-duplication).  allOf: the branches are resolved and merged (Model/Merge.v) and the merged schema is generated inline; anyOf: GUnmod. *)
+   de-duplication).  allOf: the branches are resolved and merged (Model/Merge.v) and the merged schema is generated inline; anyOf (inline branches): the branch types, and the merged struct with the anyOf validator. *)
 From GJS Require Export Base Bounds IntSize Regex Schema GoType Ident Merge.
 
 Inductive res (A : Type) := Done (a : A) | GErr | GUnmod | GFuel.
@@ -262,7 +262,31 @@ Fixpoint gen (fuel : nat) (m : mode) (self : option str) (sub : bool) (s : schem
       match c_enum c, c_ref c with
       | None, None =>
           match s_any_of s, s_all_of s with
-          | _ :: _, _ => GUnmod
+          | (_ :: _) as bs, _ =>
+              (* generateAnyOfType (822-865): every branch is generated inline as <scope>_<i> (a sub-schema element: it always gets a method), the
+                 branches are merged like allOf members and the merged struct <scope> gets the anyOf validator alone.  A branch given by reference
+                 is the declared type of the definition it names (which keeps its own method).  Composite branches and references to the
+                 definition being generated (cycles) are outside the model. *)
+              if existsb (fun b => match s_all_of b, s_any_of b with [], [] => false | _, _ => true end) bs then GUnmod
+              else if existsb (fun b => match c_ref (s_con b), self with Some x, Some me => str_eqb x me | _, _ => false end) bs then GUnmod
+              else
+                rbind (resolve_branches bs) (fun rs =>
+                if existsb (fun b => match s_all_of b, s_any_of b with [], [] => false | _, _ => true end) rs then GUnmod
+                else
+                rbind (rmap (fun ib => match c_ref (s_con (snd ib)) with
+                                       | Some x => Done (TRef x, c_bounds (s_con (snd ib)))       (* the declared type of the definition *)
+                                       | None => gen f MInline self true (snd ib) (suffixed scope (fst ib))
+                                       end) (combine (seq 0 (length bs)) bs)) (fun brs =>
+                  match merge_types rs with
+                  | None => GUnmod
+                  | Some m =>
+                      rbind (gen f MInline self false m scope) (fun r =>
+                        match fst r with
+                        | TStruct (ch :: nm) fs _ =>
+                            Done (TStruct (ch :: nm) fs (if g_only_models cf then None else Some [VAnyOf (map fst brs)]), snd r)
+                        | _ => GUnmod
+                        end)
+                  end))
           | [], (_ :: _) as bs => rbind (all_of_schema bs) (fun m => gen f MInline self false m scope)
           | [], [] =>
               match c_types c with
